@@ -152,7 +152,7 @@ def eval_c01(triples, tier, rng, table):
 
 # ------------------------------------------------------------------ C01 / C02 / C13: arbitrary short range texts
 RT_ALPHABET = ['0', '1', 'x', '*', '.', '-', '+', '<', '>', '=', '~', '^', '|', ' ', 'v', 'a']
-RT_TOKENS = ['1', '1.2', '1.2.3', '>=1.2.3', '~1.2', '^0.1.2', '1 - 2', '1.x', 'a', '<=2', '1.2.3-a', '||']
+RT_TOKENS = ['1', '1.2', '1.2.3', '>=1.2.3', '~1.2', '^0.1.2', '1 - 2', '1.x', 'a', '<=2', '1.2.3-a', '||', '1.1.x', '>1.x.1', 'x.1.1', '1.1.1']
 def gen_rtext(tier, rng):
     """every string of length <= n over the range alphabet, token-anchored strings, and rendered trees with `-` / junk tokens and
     blanks around them.  A text inside the documented language (tools/textgrammar.py) becomes a c01 case with the tree the
